@@ -143,7 +143,8 @@ func (w *World) GenesisState() (map[string]json.RawMessage, []abci.ValidatorUpda
 	addAcc := func(k Key, amt sdkmath.Int) {
 		genAccs = append(genAccs, &haqqtypes.EthAccount{
 			BaseAccount: authtypes.NewBaseAccount(k.Addr, nil, 0, 0), CodeHash: emptyHash})
-		c := sdk.NewCoins(sdk.NewCoin(utils.BaseDenom, amt))
+		// a second denomination in every account (multi-denomination deposits, fees that are refused, ...)
+		c := sdk.NewCoins(sdk.NewCoin(utils.BaseDenom, amt), sdk.NewCoin("utest", sdkmath.NewInt(1_000_000_000)))
 		balances = append(balances, banktypes.Balance{Address: k.Addr.String(), Coins: c})
 		supply = supply.Add(c...)
 	}
